@@ -363,6 +363,193 @@ func nilnessIn(v ssa.Value, blk *ssa.BasicBlock) int {
 	return 0
 }
 
+// ---- facts about phis that are branched on in a LATER block -------------------------------
+// (`res, done, err := <inlined helper>`: the helper's exits merge in one block, the caller tests
+// err, then done, in the blocks that follow.)  Entering the merge block through edge i fixes the
+// value of every such phi whose i-th operand is a constant / has a known nil-ness; the fact
+// travels with the path and decides the later branch.
+
+var branchedPhiMemo = map[*ssa.Function]map[*ssa.Phi]bool{}
+
+// condPhi: the phi (of any block) that decides the If of block b, and how (kinds as in phiCondOf).
+func condPhi(b *ssa.BasicBlock) (*ssa.Phi, int) {
+	if len(b.Instrs) == 0 {
+		return nil, 0
+	}
+	iff, ok := b.Instrs[len(b.Instrs)-1].(*ssa.If)
+	if !ok {
+		return nil, 0
+	}
+	asPhi := func(v ssa.Value) *ssa.Phi {
+		for i := 0; i < 4; i++ {
+			switch x := v.(type) {
+			case *ssa.Phi:
+				return x
+			case *ssa.ChangeInterface:
+				v = x.X
+			case *ssa.ChangeType:
+				v = x.X
+			default:
+				return nil
+			}
+		}
+		return nil
+	}
+	switch c := iff.Cond.(type) {
+	case *ssa.Phi:
+		return c, 1
+	case *ssa.UnOp:
+		if c.Op == token.NOT {
+			if p := asPhi(c.X); p != nil {
+				return p, 2
+			}
+		}
+	case *ssa.BinOp:
+		if c.Op == token.NEQ || c.Op == token.EQL {
+			var p *ssa.Phi
+			if isNilConst(c.Y) {
+				p = asPhi(c.X)
+			} else if isNilConst(c.X) {
+				p = asPhi(c.Y)
+			}
+			if p != nil {
+				if c.Op == token.NEQ {
+					return p, 3
+				}
+				return p, 4
+			}
+		}
+	}
+	return nil, 0
+}
+
+func branchedPhis(fn *ssa.Function) map[*ssa.Phi]bool {
+	if m, ok := branchedPhiMemo[fn]; ok {
+		return m
+	}
+	m := map[*ssa.Phi]bool{}
+	for _, b := range fn.Blocks {
+		if p, _ := condPhi(b); p != nil && p.Block() != b {
+			m[p] = true
+		}
+	}
+	branchedPhiMemo[fn] = m
+	return m
+}
+
+// phiEntryFacts: the facts after entering `to` from `from`.
+func phiEntryFacts(facts string, from, to *ssa.BasicBlock) string {
+	bp := branchedPhis(to.Parent())
+	if len(bp) == 0 {
+		return facts
+	}
+	var mine []*ssa.Phi
+	for _, in := range to.Instrs {
+		p, ok := in.(*ssa.Phi)
+		if !ok {
+			break
+		}
+		if bp[p] {
+			mine = append(mine, p)
+		}
+	}
+	if len(mine) == 0 {
+		return facts
+	}
+	idx := -1
+	for i, q := range to.Preds {
+		if q == from {
+			if idx >= 0 {
+				idx = -2
+				break
+			}
+			idx = i
+		}
+	}
+	var fs []string
+	if facts != "" {
+		fs = strings.Split(facts, "\x00")
+	}
+	for _, p := range mine {
+		id := fmt.Sprintf("phi%p", p)
+		var out []string
+		for _, f := range fs {
+			if !strings.HasPrefix(f, id+":") {
+				out = append(out, f)
+			}
+		}
+		fs = out
+		if idx < 0 || idx >= len(p.Edges) {
+			continue
+		}
+		v := p.Edges[idx]
+		val := ""
+		if c, ok := v.(*ssa.Const); ok {
+			switch {
+			case c.Value == nil:
+				val = "nil"
+			case constString(c) == "true":
+				val = "T"
+			case constString(c) == "false":
+				val = "F"
+			}
+		} else if _, isBool := p.Type().Underlying().(*types.Basic); !isBool {
+			if provablyNonNilError(v) {
+				val = "nonnil"
+			} else if n := nilnessIn(v, from); n == 1 {
+				val = "nonnil"
+			} else if n == -1 {
+				val = "nil"
+			}
+		}
+		if val != "" && len(fs) < 12 {
+			fs = append(fs, id+":"+val)
+		}
+	}
+	sort.Strings(fs)
+	return strings.Join(fs, "\x00")
+}
+
+// phiFactInfeasible: successor k of b contradicts what the path knows about the phi b branches on.
+func phiFactInfeasible(facts string, b *ssa.BasicBlock, k int) bool {
+	if facts == "" || len(b.Succs) != 2 {
+		return false
+	}
+	p, kind := condPhi(b)
+	if p == nil || p.Block() == b {
+		return false
+	}
+	id := fmt.Sprintf("phi%p", p) + ":"
+	val := ""
+	for _, f := range strings.Split(facts, "\x00") {
+		if strings.HasPrefix(f, id) {
+			val = strings.TrimPrefix(f, id)
+		}
+	}
+	truth := 0
+	switch kind {
+	case 1, 2:
+		if val == "T" {
+			truth = 1
+		} else if val == "F" {
+			truth = -1
+		}
+		if kind == 2 {
+			truth = -truth
+		}
+	case 3, 4:
+		if val == "nonnil" {
+			truth = 1
+		} else if val == "nil" {
+			truth = -1
+		}
+		if kind == 4 {
+			truth = -truth
+		}
+	}
+	return (truth == 1 && k == 1) || (truth == -1 && k == 0)
+}
+
 // predIndex: the index of edge from->to among to.Preds when to branches on its own phi and
 // the edge is unambiguous; -1 otherwise.
 func predIndex(from, to *ssa.BasicBlock) int {
@@ -444,6 +631,10 @@ func (q Query) Run() []Witness {
 			if !feasible {
 				continue
 			}
+			if phiFactInfeasible(nf, s.b, k) {
+				continue
+			}
+			nf = phiEntryFacts(nf, s.b, succ)
 			h := held
 			if q.GenEdge != nil && q.GenEdge(s.b, k) {
 				h = true
